@@ -251,6 +251,7 @@ inductive Att
 
 /-- `_convert_from` after the `tried_encodings` bookkeeping (dammit.py:937-959) for the looked-up name `r`. -/
 def attempt (t : MsTables) (r : PStr) (mode : Mode) (replace : Bool) (data : Bytes) : Att :=
+  if data = [] then .ok [] else      -- CPython: `str(b"", anything, …)` is `""` without looking the codec up (BOM-only input)
   match codecInfo r with
   | .notACodec => .fail                                   -- `str(data, r, …)` raises LookupError, caught :954
   | .other | .unlisted => .beyond
